@@ -374,3 +374,11 @@ package hclsyntax
 //@ maypanic
 //@ ensures marks: forall k iface :: { marked(ret0, k) } marked(exprVal(old(e.Tuple), ctx), k) ==> marked(ret0, k)
 //@ loop 1 invariant len(allMarks) >= 1 && allMarks[0] == marks
+
+// Every Range / StartRange method of a syntax node only reads the node.
+// verif:methods *).Range
+//@ nosafety
+//@ pure
+// verif:methods *).StartRange
+//@ nosafety
+//@ pure
